@@ -246,7 +246,7 @@ def run(ctx: Ctx) -> None:
     for k, c in enumerate(cmulti[: (4 if quick else 30)]):
         traces.append(run_history(fan, c, storages[k % 3], pool=[None, "thread", "async"][k % 3], only=["f", "g"]))
     # learners: one SequenceLearner per function (and per key with split_independent_axes), executed element by element
-    for sc in (["outer", "consumer", "multi"] if quick else ["outer", "zip", "consumer", "reduceother", "multi", "internalfirst"]):
+    for sc in (["outer", "consumer", "multi", "internalfirst"] if quick else ["outer", "zip", "consumer", "reduceother", "multi", "internalfirst"]):
         scen, _, _ = export(ctx, sc) if sc not in ("outer", "consumer", "reduceother", "internalfirst") or True else (None, None, None)
         for variant in ("plain", "split"):
             for k in range(2 if quick else 12):
